@@ -330,8 +330,30 @@ def invalid_variants(d, use, rng):
     return out
 
 
+REQ_FORMS = [0]
+
+
 def wrap(d, argtoks, required):
-    req = gen.ScriptGen._req_list(sorted(required)) if required else []
+    """the require in front of the use is written in rotating legal forms: a list, a single
+    string, behind other capabilities, behind a capability named twice, in a second require"""
+    req = []
+    if required:
+        ext = sorted(required)
+        REQ_FORMS[0] += 1
+        form = REQ_FORMS[0] % 6
+        L = gen.ScriptGen._req_list
+        if form == 0:
+            req = L(ext)
+        elif form == 1 and len(ext) == 1:
+            req = [b"require", b'"%s"' % ext[0].encode(), b";"]
+        elif form == 2:
+            req = L(["envelope", "body"] + ext)
+        elif form == 3:
+            req = L(["envelope", "envelope"] + ext)
+        elif form == 4:
+            req = L(["envelope"]) + L(["envelope"] + ext)
+        else:
+            req = L(ext + ["body", "body"])
     name = d["name"].encode()
     if d["role"] == "test":
         return req + [b"if", name] + argtoks + [b"{", b"keep", b";", b"}"]
